@@ -1122,8 +1122,20 @@ expand_manifests(string &expr, bool expand_undefined,
               result += ' ';
             }
           }
+          // Scanning continues after the expansion - except that a name at
+          // the very end of it may be the name of a function-like macro that
+          // only now meets its argument list: F(G)(1) with "#define F(x) x".
+          // So that name is looked at once more, together with what follows.
+          size_t resume = result.size();
+          while (resume > 0 && (isalnum(result[resume - 1]) || result[resume - 1] == '_')) {
+            --resume;
+          }
+          if (resume == result.size() || isdigit(result[resume]) ||
+              (resume > 0 && result[resume - 1] == CPPManifest::no_expand_mark)) {
+            resume = result.size();
+          }
           expr = expr.substr(0, q) + result + expr.substr(p);
-          p = q + result.size();
+          p = q + resume;
         }
         else if (mi != _manifests.end() && !expand_undefined) {
           // The name of a macro that is being expanded.  It is not replaced,
